@@ -37,6 +37,48 @@ func (s sym) String() string {
 	return "?"
 }
 
+func symNames(ss []sym) []string {
+	out := make([]string, len(ss))
+	for i, s := range ss {
+		out[i] = s.String()
+	}
+	return out
+}
+
+// parseSym is the inverse of sym.String (used by --replay).
+func parseSym(n string) (sym, error) {
+	var s sym
+	if len(n) < 2 {
+		return s, fmt.Errorf("bad symbol %q", n)
+	}
+	s.K = n[0]
+	switch s.K {
+	case 'P', 'v', 'c':
+		if len(n) != 5 || n[2] != '/' {
+			return s, fmt.Errorf("bad symbol %q", n)
+		}
+		s.DH, s.R, s.X = int(n[1]-'0'), int(n[3]-'0'), n[4]
+	case 't':
+		if len(n) < 4 || n[2] != ':' {
+			return s, fmt.Errorf("bad symbol %q", n)
+		}
+		s.R = int(n[1] - '0')
+		switch n[3:] {
+		case "propose":
+			s.Step = types.StepPropose
+		case "prevote":
+			s.Step = types.StepPrevote
+		case "precommit":
+			s.Step = types.StepPrecommit
+		default:
+			return s, fmt.Errorf("bad symbol %q", n)
+		}
+	default:
+		return s, fmt.Errorf("bad symbol %q", n)
+	}
+	return s, nil
+}
+
 func scriptString(ss []sym) string {
 	parts := make([]string, len(ss))
 	for i, s := range ss {
